@@ -181,7 +181,7 @@ def context_table(ck, repo, tag="select"):
     from ..q import inlined_view
     f = repo.func("tartiflette/execution/context.py", "build_execution_context")
     on = f.positional_params[5]
-    rows = outcome_rows(inlined_view(repo, f))
+    rows = outcome_rows(inlined_view(repo, f, max_stmts=30))
     n = 0
     seen = {}
     for r in rows:
@@ -233,10 +233,32 @@ def _operation_selection(ck, repo):
     f = repo.func("tartiflette/execution/context.py", "build_execution_context")
     fv = FuncView(f)
     context_table(ck, repo)
+    from ..q import inlined_view as _iv
+    fv = _iv(repo, f, max_stmts=30)   # a helper that sorts the definitions is part of the selection
     lp = [l for l in fv.loops() if isinstance(l, ast.For) and unparse(l.iter).endswith(".definitions")]
     ok = False
     if len(lp) == 1:
-        st = [n for n in walk_no_nested(lp[0]) if isinstance(n, ast.Assign) and isinstance(n.targets[0], ast.Subscript) and unparse(n.targets[0].value) == "operations"]
         d = unparse(lp[0].target)
-        ok = len(st) == 1 and unparse(st[0].targets[0].slice) == f"{d}.name.value if {d}.name else None" and fv.guarded(st[0], lambda t: t == f"isinstance({d}, OperationDefinitionNode)", "T")
+        # the store that is reached for operation definitions only
+        st = [n for n in walk_no_nested(lp[0]) if isinstance(n, ast.Assign) and isinstance(n.targets[0], ast.Subscript) and unparse(n.value) == d
+              and fv.guarded(n, lambda t: t == f"isinstance({d}, OperationDefinitionNode)", "T")]
+        if len(st) == 1:
+            key = st[0].targets[0].slice
+            want = f"{d}.name.value if {d}.name else None"
+            if unparse(key) == want:
+                ok = True
+            elif isinstance(key, ast.Name):
+                # an intermediate: `k = d.name.value if d.name else None`, possibly already expanded into two guarded assignments
+                defs = [n for n in walk_no_nested(lp[0]) if isinstance(n, ast.Assign) and unparse(n.targets[0]) == key.id]
+                got = set()
+                for n in defs:
+                    if unparse(n.value) == want:
+                        got = {"T", "F"}
+                    elif unparse(n.value) == f"{d}.name.value" and fv.guarded(n, lambda t: t == f"{d}.name", "T"):
+                        got.add("T")
+                    elif unparse(n.value) == "None" and fv.guarded(n, lambda t: t == f"{d}.name", "F"):
+                        got.add("F")
+                    else:
+                        got.add("?")
+                ok = got == {"T", "F"}
     ck.ob("operation selection: operations are indexed by their name (None for the anonymous one)", ok, f, lp[0] if lp else f.node, construct="select:index")
